@@ -177,6 +177,31 @@ class Scan:
         return r
 
 
+# The polynomial domain's predicates and `assign`/`degree` normalise their `const Rep&` argument in place (`setDegree(const_cast<Rep&>(P))`):
+# `setdegree` stores (`resize`) only when the representation has leading zero coefficients.  On a thread-private element that is outside
+# C18; on the domain's own constants `zero`/`one`/`mOne` (and on `Extension::_irred`, the modulus handed to `modin`/`invmod` by every
+# multiplication) it would be a write to the shared object -- except that the constructors establish, and nothing changes, that these are
+# stored normalised (fix C18_2; `Extension(polydomain, Irred)` normalises its copy by calling `isOne(_irred)` in the constructor body),
+# so the guarded `resize` is never reached with them.  harness/h_threads.cpp inspects exactly this on fresh objects, copies, copies of
+# copies and assignment targets before any const use (`norm` lines), and ThreadSanitizer watches the first const uses.
+# Such entries (member in NORMALISED_MEMBERS, every store on the path made by `setdegree`) are listed in their own column, assumed
+# harmless under that invariant and cross-checked by ThreadSanitizer; everything else counts as a shared write.
+NORMALISED_MEMBERS = {"Poly1Dom": ("zero", "one", "mOne"), "Poly1FactorDom": ("zero", "one", "mOne"), "Extension": ("_irred",)}
+NORMALISERS = ("setdegree",)
+
+
+def split_arg_writes(f, entries):
+    hard, norm = [], []
+    for (what, through, writers) in entries:
+        txt = "%s%s [stores in: %s]" % (what, (" passed at %s" % through) if through else "", ", ".join(writers))
+        members = next((m for c, m in NORMALISED_MEMBERS.items() if (f.cls or "") == c or (f.cls or "").startswith(c + "<")), ())
+        if what in members and writers and all(w in NORMALISERS for w in writers):
+            norm.append(txt)
+        else:
+            hard.append(txt)
+    return dict(arg_writes=sorted(set(hard)), arg_normalise=sorted(set(norm)))
+
+
 def qualified(f):
     return "%s::%s" % (f.cls, f.name) if f.cls else f.name
 
@@ -261,6 +286,10 @@ def extract(log=lambda *a: None):
             # const-ness of a callee's member writes concerns the callee's object, keep them tagged
             acc["const_writes"] |= {("via %s: %s" % (by_id[j][0].name, w)) if not w.startswith("via ") else w for w in sub["const_writes"]}
         return acc
+    # interprocedural: which parts of the shared object a const member function / copy constructor hands to something that writes them
+    from translate import paramwrites
+    pa = paramwrites.Analysis(prog, {i: fr[0] for i, fr in by_id.items()}, resolve)
+    pa.solve()
     table = []
     for i, (f, r) in by_id.items():
         if not f.cls or not any(f.cls == c or f.cls.startswith(c) for c in DOMAIN_CLASSES):
@@ -270,14 +299,16 @@ def extract(log=lambda *a: None):
                           copyctor=f.kind == "CXXConstructorDecl" and len(f.params) == 1 and (f.cls or "") in gmpxx.type_of(f.params[0]),
                           dtor=f.kind == "CXXDestructorDecl", file=os.path.basename(f.file), line=f.line,
                           statics=sorted(acc["statics"]), const_writes=sorted(acc["const_writes"]),
-                          pointee_writes=sorted(acc["pointee_writes"]), const_casts=acc["const_casts"]))
+                          pointee_writes=sorted(acc["pointee_writes"]), const_casts=acc["const_casts"],
+                          **split_arg_writes(f, pa.shared_arg_writes(i, f.kind == "CXXConstructorDecl" and len(f.params) == 1 and (f.cls or "") in gmpxx.type_of(f.params[0]))
+                                             if (f.const or f.kind == "CXXConstructorDecl") else [])))
     # merge identical (cls, fn, sig) rows of different instantiations: keep union
     merged = {}
     for t in table:
         k = (t["cls"], t["fn"], t["sig"])
         if k in merged:
             m = merged[k]
-            for fld in ("statics", "const_writes", "pointee_writes"):
+            for fld in ("statics", "const_writes", "pointee_writes", "arg_writes", "arg_normalise"):
                 m[fld] = sorted(set(m[fld]) | set(t[fld]))
         else:
             merged[k] = t
@@ -307,15 +338,16 @@ def emit(table):
              "   touches, the data members a const function writes, the pointees it writes through pointer members. -/",
              "namespace Givaro.Gen.Footprint", "",
              "structure Row where", "  cls : String", "  fn : String", "  isConst : Bool", "  isCopyCtor : Bool", "  claimed : Bool", "  statics : List String",
-             "  constWrites : List String", "  pointeeWrites : List String", "deriving Repr, DecidableEq", "",
+             "  constWrites : List String", "  pointeeWrites : List String", "  argWrites : List String", "  argNormalise : List String", "deriving Repr, DecidableEq", "",
              "def rows : List Row := ["]
     body = []
     for t in table:
-        body.append("  ⟨%s, %s, %s, %s, %s, [%s], [%s], [%s]⟩" % (
+        body.append("  ⟨%s, %s, %s, %s, %s, [%s], [%s], [%s], [%s], [%s]⟩" % (
             lean_str(t["cls"]), lean_str(t["fn"] + " : " + t["sig"][:80]), "true" if t["const"] else "false", "true" if t["copyctor"] else "false",
             "true" if claimed(t) else "false",
             ", ".join(lean_str(x) for x in t["statics"]), ", ".join(lean_str(x) for x in t["const_writes"]),
-            ", ".join(lean_str(x) for x in t["pointee_writes"])))
+            ", ".join(lean_str(x) for x in t["pointee_writes"]), ", ".join(lean_str(x) for x in t.get("arg_writes", [])),
+            ", ".join(lean_str(x) for x in t.get("arg_normalise", []))))
     lines.append(",\n".join(body))
     lines += ["]", "", "end Givaro.Gen.Footprint", ""]
     path = os.path.join(gen, "Footprint.lean")
@@ -333,5 +365,5 @@ if __name__ == "__main__":
     emit(t)
     print("%d member functions of domain classes" % len(t))
     for r in t:
-        if r["statics"] or r["const_writes"] or (r["pointee_writes"] and (r["const"] or r["copyctor"])):
-            print(r["cls"], r["fn"], "const" if r["const"] else "", "| statics", r["statics"], "| const_writes", r["const_writes"], "| pointee", r["pointee_writes"][:4])
+        if r["statics"] or r["const_writes"] or r.get("arg_writes") or (r["pointee_writes"] and (r["const"] or r["copyctor"])):
+            print(r["cls"], r["fn"], "const" if r["const"] else "", "| statics", r["statics"], "| const_writes", r["const_writes"], "| pointee", r["pointee_writes"][:4], "| arg_writes", r.get("arg_writes"), "| normalise", r.get("arg_normalise"))
